@@ -1,8 +1,683 @@
 package main
 
-import "fmt"
+// Source instrumenter for E3 ("sched": hooks at every statement that touches a package-level
+// variable of the library) and E4 ("trace": branch conditions, non-constant indices, variable-time
+// primitives), plus the per-package registration of all package-level variables ("globals").
+// Instrumented copies are generated from the CURRENT content of /repo's files (selected by
+// `go list` for the build configuration) and supplied to the build through -overlay.
 
-// instrument generates instrumented copies of the library sources (E3 "sched" / E4 "trace").
+import (
+	"bytes"
+	"encoding/json"
+	"fmt"
+	"go/ast"
+	"go/format"
+	"go/importer"
+	"go/parser"
+	"go/token"
+	"go/types"
+	"io"
+	"io/ioutil"
+	"os"
+	"os/exec"
+	"path/filepath"
+	"sort"
+	"strconv"
+	"strings"
+)
+
+type listPkg struct {
+	ImportPath string
+	Dir        string
+	Export     string
+	GoFiles    []string
+	SFiles     []string
+}
+
+var repoPkgOrder = []string{"internal/curve25519", "internal/modm", "internal/ge25519", "", "extra/x25519"}
+
+func repoImportPath(sub string) string {
+	if sub == "" {
+		return modPath
+	}
+	return modPath + "/" + sub
+}
+
+func isRepoPkg(path string) bool {
+	return path == modPath || (strings.HasPrefix(path, modPath+"/") && !strings.Contains(path, "zzverif"))
+}
+
+func goList(cfg string) (map[string]*listPkg, error) {
+	cmd := exec.Command("go", "list", "-export", "-deps", "-json", "-tags", cfgTags(cfg), "./...")
+	cmd.Dir = repoDir
+	cmd.Env = goEnv(cfg)
+	var stderr bytes.Buffer
+	cmd.Stderr = &stderr
+	out, err := cmd.Output()
+	if err != nil {
+		return nil, fmt.Errorf("go list: %v\n%s", err, stderr.String())
+	}
+	pk := map[string]*listPkg{}
+	dec := json.NewDecoder(bytes.NewReader(out))
+	for {
+		var p listPkg
+		if err := dec.Decode(&p); err == io.EOF {
+			break
+		} else if err != nil {
+			return nil, err
+		}
+		q := p
+		pk[p.ImportPath] = &q
+	}
+	return pk, nil
+}
+
+type instrumenter struct {
+	mode     string
+	fset     *token.FileSet
+	info     *types.Info
+	pkg      *types.Package
+	pkgShort string
+	sites    []string // site id -> "file:line what"
+	siteBase int
+	uninstr  []string
+	rtName   string
+	changed  bool
+}
+
+var rtImport = modPath + "/internal/zzverifrt"
+
 func instrument(work, cfg, mode string) (map[string]string, error) {
-	return nil, fmt.Errorf("instrumentation mode %q not built yet", mode)
+	pkgs, err := goList(cfg)
+	if err != nil {
+		return nil, err
+	}
+	outDir := filepath.Join(work, "instr_"+cfg+"_"+mode)
+	os.MkdirAll(outDir, 0755)
+	repl := map[string]string{}
+	fset := token.NewFileSet()
+	imp := importer.ForCompiler(fset, "gc", func(path string) (io.ReadCloser, error) {
+		p, ok := pkgs[path]
+		if !ok || p.Export == "" {
+			return nil, fmt.Errorf("no export data for %q", path)
+		}
+		return os.Open(p.Export)
+	})
+	arch := "amd64"
+	if cfg == "386" {
+		arch = "386"
+	}
+	siteBase := 0
+	var allSites []string
+	var allUninstr []string
+	for _, sub := range repoPkgOrder {
+		ip := repoImportPath(sub)
+		lp, ok := pkgs[ip]
+		if !ok {
+			return nil, fmt.Errorf("package %s not listed", ip)
+		}
+		var files []*ast.File
+		var names []string
+		for _, f := range lp.GoFiles {
+			full := filepath.Join(lp.Dir, f)
+			af, err := parser.ParseFile(fset, full, nil, parser.ParseComments)
+			if err != nil {
+				return nil, err
+			}
+			files = append(files, af)
+			names = append(names, full)
+		}
+		info := &types.Info{Uses: map[*ast.Ident]types.Object{}, Defs: map[*ast.Ident]types.Object{}, Types: map[ast.Expr]types.TypeAndValue{}}
+		conf := types.Config{Importer: imp, Sizes: types.SizesFor("gc", arch)}
+		tp, err := conf.Check(ip, fset, files, info)
+		if err != nil {
+			return nil, fmt.Errorf("type-checking %s: %v", ip, err)
+		}
+		in := &instrumenter{mode: mode, fset: fset, info: info, pkg: tp, pkgShort: tp.Name(), siteBase: siteBase, rtName: "zzverifrt"}
+		pdir := filepath.Join(outDir, pkgKey(sub))
+		os.MkdirAll(pdir, 0755)
+		if mode == "sched" || mode == "trace" {
+			for i, af := range files {
+				in.changed = false
+				in.file(af)
+				if !in.changed {
+					continue
+				}
+				addImport(af, rtImport, in.rtName)
+				var buf bytes.Buffer
+				if err := format.Node(&buf, fset, af); err != nil {
+					return nil, fmt.Errorf("printing %s: %v", names[i], err)
+				}
+				dst := filepath.Join(pdir, filepath.Base(names[i]))
+				if err := ioutil.WriteFile(dst, buf.Bytes(), 0644); err != nil {
+					return nil, err
+				}
+				repl[names[i]] = dst
+			}
+		}
+		// globals registration file (all modes)
+		gsrc := in.globalsFile(files)
+		gdst := filepath.Join(pdir, "zz_verif_globals.go")
+		if err := ioutil.WriteFile(gdst, gsrc, 0644); err != nil {
+			return nil, err
+		}
+		repl[filepath.Join(lp.Dir, "zz_verif_globals.go")] = gdst
+		allSites = append(allSites, in.sites...)
+		allUninstr = append(allUninstr, in.uninstr...)
+		siteBase += len(in.sites)
+	}
+	sj, _ := json.Marshal(map[string]interface{}{"sites": allSites, "uninstrumented": allUninstr})
+	ioutil.WriteFile(filepath.Join(outDir, "sites.json"), sj, 0644)
+	return repl, nil
+}
+
+func addImport(f *ast.File, path, name string) {
+	for _, im := range f.Imports {
+		if im.Path.Value == strconv.Quote(path) {
+			return
+		}
+	}
+	spec := &ast.ImportSpec{Name: ast.NewIdent(name), Path: &ast.BasicLit{Kind: token.STRING, Value: strconv.Quote(path)}}
+	decl := &ast.GenDecl{Tok: token.IMPORT, Specs: []ast.Spec{spec}}
+	// imports must come first
+	f.Decls = append([]ast.Decl{decl}, f.Decls...)
+	f.Imports = append(f.Imports, spec)
+}
+
+func (in *instrumenter) site(pos token.Pos, what string) int {
+	p := in.fset.Position(pos)
+	rel := strings.TrimPrefix(p.Filename, repoDir+"/")
+	in.sites = append(in.sites, fmt.Sprintf("%s:%d %s", rel, p.Line, what))
+	return in.siteBase + len(in.sites) - 1
+}
+
+// globalOf returns the qualified name if id refers to a package-level variable of a library package.
+func (in *instrumenter) globalOf(id *ast.Ident) (string, bool) {
+	obj := in.info.Uses[id]
+	v, ok := obj.(*types.Var)
+	if !ok || v.IsField() || v.Pkg() == nil || v.Parent() != v.Pkg().Scope() || !isRepoPkg(v.Pkg().Path()) {
+		return "", false
+	}
+	return v.Pkg().Name() + "." + v.Name(), true
+}
+
+func (in *instrumenter) rtCall(fn string, args ...ast.Expr) *ast.CallExpr {
+	return &ast.CallExpr{Fun: &ast.SelectorExpr{X: ast.NewIdent(in.rtName), Sel: ast.NewIdent(fn)}, Args: args}
+}
+
+func intLit(n int) ast.Expr { return &ast.BasicLit{Kind: token.INT, Value: strconv.Itoa(n)} }
+func strLit(s string) ast.Expr {
+	return &ast.BasicLit{Kind: token.STRING, Value: strconv.Quote(s)}
+}
+
+func (in *instrumenter) file(f *ast.File) {
+	for _, d := range f.Decls {
+		fd, ok := d.(*ast.FuncDecl)
+		if !ok || fd.Body == nil {
+			continue
+		}
+		if fd.Name.Name == "init" && in.mode == "sched" {
+			continue // package initialisation runs before any harness thread exists
+		}
+		if in.mode == "sched" {
+			in.schedBlock(fd.Body)
+		} else {
+			in.traceNode(fd.Body)
+		}
+	}
+}
+
+// ---------------------------------------------------------------------------------------------
+// sched mode
+
+// headerGlobals collects the library globals mentioned by the statement itself (not by nested
+// statement lists, which are instrumented on their own); write is true for syntactic assignment.
+func (in *instrumenter) headerGlobals(s ast.Stmt) map[string]bool {
+	res := map[string]bool{}
+	var reads func(n ast.Node)
+	reads = func(n ast.Node) {
+		if n == nil {
+			return
+		}
+		ast.Inspect(n, func(x ast.Node) bool {
+			switch y := x.(type) {
+			case *ast.FuncLit:
+				return false // body instrumented separately
+			case *ast.BlockStmt:
+				return false
+			case *ast.Ident:
+				if g, ok := in.globalOf(y); ok {
+					if _, seen := res[g]; !seen {
+						res[g] = false
+					}
+				}
+			}
+			return true
+		})
+	}
+	root := func(e ast.Expr) *ast.Ident {
+		for {
+			switch y := e.(type) {
+			case *ast.Ident:
+				return y
+			case *ast.IndexExpr:
+				e = y.X
+			case *ast.SliceExpr:
+				e = y.X
+			case *ast.SelectorExpr:
+				if id, ok := y.X.(*ast.Ident); ok {
+					if _, isPkg := in.info.Uses[id].(*types.PkgName); isPkg {
+						return y.Sel
+					}
+				}
+				e = y.X
+			case *ast.ParenExpr:
+				e = y.X
+			case *ast.StarExpr:
+				e = y.X
+			default:
+				return nil
+			}
+		}
+	}
+	write := func(e ast.Expr) {
+		if id := root(e); id != nil {
+			if g, ok := in.globalOf(id); ok {
+				res[g] = true
+			}
+		}
+	}
+	switch y := s.(type) {
+	case *ast.AssignStmt:
+		reads(y)
+		for _, l := range y.Lhs {
+			write(l)
+		}
+	case *ast.IncDecStmt:
+		reads(y)
+		write(y.X)
+	case *ast.ExprStmt, *ast.ReturnStmt, *ast.DeclStmt, *ast.GoStmt, *ast.DeferStmt, *ast.SendStmt:
+		reads(y)
+		ast.Inspect(y, func(x ast.Node) bool {
+			if _, ok := x.(*ast.FuncLit); ok {
+				return false
+			}
+			if c, ok := x.(*ast.CallExpr); ok {
+				if id, ok := c.Fun.(*ast.Ident); ok && id.Name == "copy" && len(c.Args) == 2 {
+					write(c.Args[0])
+				}
+			}
+			return true
+		})
+	case *ast.IfStmt:
+		reads(y.Init)
+		reads(y.Cond)
+	case *ast.ForStmt:
+		reads(y.Init)
+		reads(y.Cond)
+		reads(y.Post)
+	case *ast.RangeStmt:
+		reads(y.X)
+		if y.Tok == token.ASSIGN {
+			if y.Key != nil {
+				write(y.Key)
+			}
+			if y.Value != nil {
+				write(y.Value)
+			}
+		}
+	case *ast.SwitchStmt:
+		reads(y.Init)
+		reads(y.Tag)
+		for _, cc := range y.Body.List {
+			for _, e := range cc.(*ast.CaseClause).List {
+				reads(e)
+			}
+		}
+	case *ast.TypeSwitchStmt:
+		reads(y.Init)
+		reads(y.Assign)
+	case *ast.LabeledStmt:
+		return in.headerGlobals(y.Stmt)
+	}
+	return res
+}
+
+func (in *instrumenter) accessStmts(pos token.Pos, gl map[string]bool) []ast.Stmt {
+	var names []string
+	for g := range gl {
+		names = append(names, g)
+	}
+	sort.Strings(names)
+	var out []ast.Stmt
+	for _, g := range names {
+		w := "r"
+		if gl[g] {
+			w = "w"
+		}
+		id := in.site(pos, w+" "+g)
+		fn := "Access"
+		if gl[g] {
+			fn = "AccessW"
+		}
+		out = append(out, &ast.ExprStmt{X: in.rtCall(fn, intLit(id), strLit(g))})
+		in.changed = true
+	}
+	return out
+}
+
+func (in *instrumenter) schedList(list []ast.Stmt) []ast.Stmt {
+	var out []ast.Stmt
+	for _, s := range list {
+		gl := in.headerGlobals(s)
+		out = append(out, in.accessStmts(s.Pos(), gl)...)
+		in.schedNested(s, gl)
+		out = append(out, s)
+	}
+	return out
+}
+
+func (in *instrumenter) schedBlock(b *ast.BlockStmt) {
+	if b != nil {
+		b.List = in.schedList(b.List)
+	}
+}
+
+// schedNested instruments the statement lists nested in s, and function literals anywhere in it.
+func (in *instrumenter) schedNested(s ast.Stmt, hdr map[string]bool) {
+	loopBody := func(b *ast.BlockStmt) {
+		in.schedBlock(b)
+		// header expressions of a loop are re-evaluated on every iteration
+		if len(hdr) > 0 && b != nil {
+			b.List = append(in.accessStmts(b.Pos(), hdr), b.List...)
+		}
+	}
+	switch y := s.(type) {
+	case *ast.BlockStmt:
+		in.schedBlock(y)
+	case *ast.IfStmt:
+		in.schedBlock(y.Body)
+		if y.Else != nil {
+			switch e := y.Else.(type) {
+			case *ast.BlockStmt:
+				in.schedBlock(e)
+			case *ast.IfStmt:
+				// else-if: its header is evaluated only when reached; wrap into a block
+				gl := in.headerGlobals(e)
+				in.schedNested(e, gl)
+				if len(gl) > 0 {
+					y.Else = &ast.BlockStmt{List: append(in.accessStmts(e.Pos(), gl), e)}
+				}
+			}
+		}
+	case *ast.ForStmt:
+		loopBody(y.Body)
+	case *ast.RangeStmt:
+		loopBody(y.Body)
+	case *ast.SwitchStmt:
+		for _, cc := range y.Body.List {
+			c := cc.(*ast.CaseClause)
+			c.Body = in.schedList(c.Body)
+		}
+	case *ast.TypeSwitchStmt:
+		for _, cc := range y.Body.List {
+			c := cc.(*ast.CaseClause)
+			c.Body = in.schedList(c.Body)
+		}
+	case *ast.SelectStmt:
+		for _, cc := range y.Body.List {
+			c := cc.(*ast.CommClause)
+			c.Body = in.schedList(c.Body)
+		}
+	case *ast.LabeledStmt:
+		in.schedNested(y.Stmt, hdr)
+	}
+	// function literals inside the statement header / simple statements
+	ast.Inspect(s, func(x ast.Node) bool {
+		switch y := x.(type) {
+		case *ast.BlockStmt:
+			return x == s // nested lists were handled above
+		case *ast.FuncLit:
+			in.schedBlock(y.Body)
+			return false
+		}
+		return true
+	})
+}
+
+// ---------------------------------------------------------------------------------------------
+// trace mode
+
+var vartimePrims = map[string]string{
+	"bytes.Equal": "BytesEqual", "bytes.Compare": "BytesCompare", "bytes.HasPrefix": "BytesHasPrefix", "bytes.HasSuffix": "BytesHasSuffix",
+	"bytes.Index": "BytesIndex", "bytes.IndexByte": "BytesIndexByte", "bytes.Contains": "BytesContains", "bytes.EqualFold": "BytesEqual",
+}
+
+func (in *instrumenter) wrapCond(e ast.Expr, what string) ast.Expr {
+	if e == nil {
+		return nil
+	}
+	tv, ok := in.info.Types[e]
+	if ok && tv.Value != nil {
+		return e
+	}
+	// named boolean types would not convert implicitly; none expected, but keep the program valid
+	if ok {
+		if _, named := tv.Type.(*types.Named); named {
+			in.uninstr = append(in.uninstr, in.fset.Position(e.Pos()).String()+" condition of named bool type")
+			return e
+		}
+	}
+	in.changed = true
+	return in.rtCall("B", intLit(in.site(e.Pos(), what)), e)
+}
+
+func (in *instrumenter) isIntegerNonConst(e ast.Expr) bool {
+	tv, ok := in.info.Types[e]
+	if !ok || tv.Value != nil {
+		return false
+	}
+	b, ok := tv.Type.Underlying().(*types.Basic)
+	return ok && b.Info()&types.IsInteger != 0
+}
+
+func (in *instrumenter) wrapIndex(e ast.Expr, what string) ast.Expr {
+	if e == nil || !in.isIntegerNonConst(e) {
+		return e
+	}
+	in.changed = true
+	conv := &ast.CallExpr{Fun: ast.NewIdent("int"), Args: []ast.Expr{e}}
+	return in.rtCall("I", intLit(in.site(e.Pos(), what)), conv)
+}
+
+// traceNode rewrites, in place, everything below n.
+func (in *instrumenter) traceNode(n ast.Node) {
+	ast.Inspect(n, func(x ast.Node) bool {
+		switch y := x.(type) {
+		case *ast.GenDecl:
+			if y.Tok == token.CONST || y.Tok == token.TYPE {
+				return false
+			}
+		case *ast.IfStmt:
+			y.Cond = in.wrapTop(y.Cond, "if")
+		case *ast.ForStmt:
+			if y.Cond != nil {
+				y.Cond = in.wrapTop(y.Cond, "for")
+			} else if y.Body != nil {
+				in.changed = true
+				y.Body.List = append([]ast.Stmt{&ast.ExprStmt{X: in.rtCall("T", intLit(in.site(y.Pos(), "loop-iteration")))}}, y.Body.List...)
+			}
+		case *ast.RangeStmt:
+			// one event per iteration: the trip count of a range loop is part of the trace
+			if y.Body != nil {
+				in.changed = true
+				y.Body.List = append([]ast.Stmt{&ast.ExprStmt{X: in.rtCall("T", intLit(in.site(y.Pos(), "range-iteration")))}}, y.Body.List...)
+			}
+		case *ast.SwitchStmt:
+			if y.Tag == nil {
+				for _, cc := range y.Body.List {
+					c := cc.(*ast.CaseClause)
+					for i, e := range c.List {
+						c.List[i] = in.wrapTop(e, "case")
+					}
+				}
+			} else if in.isIntegerNonConst(y.Tag) {
+				// integer-typed tag: log its value through an identity wrapper of the same type
+				in.changed = true
+				tv := in.info.Types[y.Tag]
+				tname := types.TypeString(tv.Type, func(p *types.Package) string {
+					if p == in.pkg {
+						return ""
+					}
+					return p.Name()
+				})
+				conv := &ast.CallExpr{Fun: ast.NewIdent("int64"), Args: []ast.Expr{y.Tag}}
+				logged := in.rtCall("V", intLit(in.site(y.Tag.Pos(), "switch")), conv)
+				texpr, err := parser.ParseExpr(tname)
+				if err == nil {
+					y.Tag = &ast.CallExpr{Fun: &ast.ParenExpr{X: texpr}, Args: []ast.Expr{logged}}
+				}
+			} else {
+				in.uninstr = append(in.uninstr, in.fset.Position(y.Pos()).String()+" switch tag not logged")
+			}
+		case *ast.BinaryExpr:
+			if y.Op == token.LAND || y.Op == token.LOR {
+				// the right operand is evaluated conditionally: the left operand is a branch
+				if tv, ok := in.info.Types[y]; !ok || tv.Value == nil {
+					y.X = in.wrapLeaf(y.X, "&&/|| operand")
+				}
+			}
+			if y.Op == token.EQL || y.Op == token.NEQ {
+				if tv, ok := in.info.Types[y.X]; ok && tv.Value == nil {
+					switch u := tv.Type.Underlying().(type) {
+					case *types.Array:
+						in.uninstr = append(in.uninstr, in.fset.Position(y.Pos()).String()+" array comparison (compiler-generated memequal)")
+					case *types.Basic:
+						if u.Info()&types.IsString != 0 {
+							in.uninstr = append(in.uninstr, in.fset.Position(y.Pos()).String()+" string comparison")
+						}
+					}
+				}
+			}
+		case *ast.IndexExpr:
+			if tv, ok := in.info.Types[y.X]; ok {
+				switch tv.Type.Underlying().(type) {
+				case *types.Map:
+				default:
+					y.Index = in.wrapIndex(y.Index, "index")
+				}
+			}
+		case *ast.SliceExpr:
+			y.Low = in.wrapIndex(y.Low, "slice-low")
+			y.High = in.wrapIndex(y.High, "slice-high")
+			y.Max = in.wrapIndex(y.Max, "slice-max")
+		case *ast.CallExpr:
+			if sel, ok := y.Fun.(*ast.SelectorExpr); ok {
+				if id, ok := sel.X.(*ast.Ident); ok {
+					if pn, ok := in.info.Uses[id].(*types.PkgName); ok {
+						key := pn.Imported().Path() + "." + sel.Sel.Name
+						if w, ok := vartimePrims[key]; ok {
+							in.changed = true
+							y.Fun = &ast.SelectorExpr{X: ast.NewIdent(in.rtName), Sel: ast.NewIdent(w)}
+							y.Args = append([]ast.Expr{intLit(in.site(y.Pos(), "vartime "+key))}, y.Args...)
+						}
+					}
+				}
+			}
+		}
+		return true
+	})
+}
+
+// wrapTop wraps a whole condition (its && / || operands are wrapped when visited).
+func (in *instrumenter) wrapTop(e ast.Expr, what string) ast.Expr {
+	return in.wrapCond(e, what)
+}
+
+// wrapLeaf wraps the left operand of a short-circuit operator unless it is itself one.
+func (in *instrumenter) wrapLeaf(e ast.Expr, what string) ast.Expr {
+	if b, ok := e.(*ast.BinaryExpr); ok && (b.Op == token.LAND || b.Op == token.LOR) {
+		return e
+	}
+	if p, ok := e.(*ast.ParenExpr); ok {
+		if b, ok := p.X.(*ast.BinaryExpr); ok && (b.Op == token.LAND || b.Op == token.LOR) {
+			return e
+		}
+	}
+	return in.wrapCond(e, what)
+}
+
+// ---------------------------------------------------------------------------------------------
+// globals registration
+
+func hasPointers(t types.Type) bool {
+	switch u := t.Underlying().(type) {
+	case *types.Basic:
+		return u.Kind() == types.String || u.Kind() == types.UnsafePointer
+	case *types.Array:
+		return hasPointers(u.Elem())
+	case *types.Struct:
+		for i := 0; i < u.NumFields(); i++ {
+			if hasPointers(u.Field(i).Type()) {
+				return true
+			}
+		}
+		return false
+	default:
+		return true
+	}
+}
+
+func (in *instrumenter) globalsFile(files []*ast.File) []byte {
+	var b bytes.Buffer
+	fmt.Fprintf(&b, "// Code generated by vcheck; DO NOT EDIT.\n\npackage %s\n\nimport (\n\t\"unsafe\"\n\n\tzzverifrt %q\n)\n\nvar _ = unsafe.Sizeof(0)\nvar _ = zzverifrt.RegisterSite\n\nfunc init() {\n", in.pkg.Name(), rtImport)
+	scope := in.pkg.Scope()
+	names := scope.Names()
+	sort.Strings(names)
+	for _, n := range names {
+		v, ok := scope.Lookup(n).(*types.Var)
+		if !ok || n == "_" {
+			continue
+		}
+		q := in.pkg.Name() + "." + n
+		if hasPointers(v.Type()) {
+			fmt.Fprintf(&b, "\tzzverifrt.RegisterGlobalRef(%q, &%s)\n", q, n)
+		} else {
+			fmt.Fprintf(&b, "\tzzverifrt.RegisterGlobalRaw(%q, unsafe.Pointer(&%s), unsafe.Sizeof(%s))\n", q, n, n)
+		}
+	}
+	for _, u := range syncUses(in.fset, files) {
+		fmt.Fprintf(&b, "\tzzverifrt.NoteSyncUse(%q)\n", u)
+	}
+	for i, s := range in.sites {
+		fmt.Fprintf(&b, "\tzzverifrt.RegisterSite(%d, %q)\n", in.siteBase+i, s)
+	}
+	fmt.Fprintf(&b, "}\n")
+	return b.Bytes()
+}
+
+// syncUses lists the places where the library itself uses synchronisation or concurrency
+// primitives (imports of sync / sync/atomic, channel types, go and select statements).
+func syncUses(fset *token.FileSet, files []*ast.File) []string {
+	var out []string
+	for _, f := range files {
+		for _, im := range f.Imports {
+			p, _ := strconv.Unquote(im.Path.Value)
+			if p == "sync" || p == "sync/atomic" {
+				out = append(out, fset.Position(im.Pos()).String()+" imports "+p)
+			}
+		}
+		ast.Inspect(f, func(x ast.Node) bool {
+			switch x.(type) {
+			case *ast.ChanType:
+				out = append(out, fset.Position(x.Pos()).String()+" channel type")
+			case *ast.GoStmt:
+				out = append(out, fset.Position(x.Pos()).String()+" go statement")
+			case *ast.SelectStmt:
+				out = append(out, fset.Position(x.Pos()).String()+" select statement")
+			}
+			return true
+		})
+	}
+	return out
 }
